@@ -18,6 +18,12 @@ LEVEL = "other"
 ARRAY = "ceos_alos2.array"
 
 
+def open_rpc(chk, repo):
+    """C06-Q9: the option reaches all three consumers unchanged (vlib/openmodel.py)"""
+    from .open_rules import open_rules
+    open_rules(chk, repo, "C06-Q9", ('rpc', 'lookup-args', 'array'), "open_image hands the caller's records_per_chunk unchanged to the cache lookup, to the metadata pass and to the pixel array")
+
+
 def run(chk, repo):
     op = OpenPath(repo)
     chk.explanation = (
@@ -34,6 +40,7 @@ def run(chk, repo):
     chk.rule("C06-Q2", "advertised chunk size = min(option, lines), exposed without arithmetic", 8)
     chk.rule("C06-Q3", "records_per_chunk is never persisted in the index", 1)
     chk.attempt(g3_threading, chk, op, "C06-Q1", options=("records_per_chunk",))
+    chk.attempt(open_rpc, chk, repo)
     chk.attempt(q2, chk, repo)
     chk.attempt(q3, chk, repo)
     chk.rule("C01-R7", "one chunk size keys both the offsets table and the row grouping (C06-Q4)", 4)
